@@ -122,6 +122,10 @@ func Load(o LoadOpts) (*World, error) {
 				kind = "a helper that runs its function argument between an acquire and a deferred release is written out in "
 			}
 			if len(subs) == 0 {
+				ov, subs = w.iifeDeferHelpers(o.Overlay)
+				kind = "a helper with deferred calls is written as a function literal invoked on the spot: "
+			}
+			if len(subs) == 0 {
 				ov, subs = w.splitIfInits(o.Overlay)
 				kind = "the initialiser of an if that calls an unknown helper is written as a statement of its own in "
 			}
